@@ -27,13 +27,14 @@ def chunked(body: bytes, r, exts=False, trailers=False):
 class Req:
     """one request + what the spec says must happen"""
     def __init__(self, r, kind=None, last=False):
-        self.kind = kind or r.choice(["echo", "echo", "noread", "readk", "early", "swallow", "p", "notfound", "close", "err", "errint", "errclose", "hookdrop", "hookdropclose", "bigr", "reqclose", "reqnoclose"])
+        self.kind = kind or r.choice(["echo", "echo", "noread", "readk", "early", "swallow", "p", "notfound", "close", "err", "errint", "errclose", "hookdrop", "hookdropclose", "bigr", "reqclose", "reqnoclose",
+                                      "closeempty", "closer", "hookdropclosesend"])
         k = self.kind
         self.body = b""
         self.framing = None
         hdrs = []
         method, path = b"GET", b"/nope"
-        has_body = k in ("echo", "noread", "readk", "early", "swallow") or (k in ("hookdrop", "hookdropclose", "notfound", "reqclose") and r.random() < 0.5)
+        has_body = k in ("echo", "noread", "readk", "early", "swallow") or (k in ("hookdrop", "hookdropclose", "hookdropclosesend", "notfound", "reqclose") and r.random() < 0.5)
         if has_body:
             self.body = rstr_body(r)
             self.framing = r.choice(["fixed", "fixed", "chunked"])
@@ -57,9 +58,14 @@ class Req:
         elif k == "bigr":
             self.n = r.choice([0, 1, 100, 2047, 2048, 8191, 8192, 8193, 20000])
             path = b"/bigr/%d" % self.n
-        elif k in ("hookdrop", "hookdropclose"):
+        elif k == "closeempty":
+            path = b"/closeempty/" + r.choice([b"ok", b"send", b"send0", b"okr", b"sendr"])
+        elif k == "closer":
+            self.n = r.choice([0, 1, 100, 2048, 8191, 8192, 20000])
+            path = b"/closer/%d" % self.n
+        elif k in ("hookdrop", "hookdropclose", "hookdropclosesend"):
             method, path = (b"POST", b"/echo") if has_body else (b"GET", b"/p/1/2")
-            hdrs.append((b"x-hook", b"drop" if k == "hookdrop" else b"dropclose"))
+            hdrs.append((b"x-hook", {"hookdrop": b"drop", "hookdropclose": b"dropclose", "hookdropclosesend": b"dropclosesend"}[k]))
         elif k == "reqclose":
             method, path = (b"POST", b"/echo") if has_body else (b"GET", b"/p/7/8")
             self.spelling = r.choice(CLOSE_SPELLINGS)
@@ -100,7 +106,9 @@ class Req:
         if k in ("err", "errint", "errclose"): return None, True
         if k == "bigr": return (200, 0, b"x" * self.n), False
         if k == "hookdrop": return (405, 0, b""), False
-        if k == "hookdropclose": return (405, 1, b""), True
+        if k in ("hookdropclose", "hookdropclosesend"): return (405, 1, b""), True
+        if k == "closeempty": return (200, 1, b""), True
+        if k == "closer": return (200, 1, b"x" * self.n), True
         if k == "reqclose":
             return ((200, 0, self.body) if self.has_body else (200, 0, b"7,8")), True
         if k == "reqnoclose": return (200, 0, b"5,6"), False
@@ -139,7 +147,7 @@ def history(r, max_reqs=4, kinds=None):
             break
         head_mode = r.choice(["whole", "whole", "split", "split", "bytes"] if len(q.head) < 120 else ["whole", "split"])
         body_mode = r.choice(["with_head", "with_head", "later", "split", "after_response"])
-        can_defer = q.kind in ("noread", "early", "hookdrop", "hookdropclose", "notfound") or (q.kind == "readk" and q.readk == 0)
+        can_defer = q.kind in ("noread", "early", "hookdrop", "hookdropclose", "hookdropclosesend", "notfound") or (q.kind == "readk" and q.readk == 0)
         if body_mode == "after_response" and not (can_defer and len(q.wire_body) >= 2):
             body_mode = "later"
         first = carry + q.head
@@ -188,3 +196,33 @@ def history(r, max_reqs=4, kinds=None):
             steps.append("e"); exp.append("OPEN")
     meta = {"kinds": [q.kind for q in reqs], "early_chunked": early_chunked, "ec_idx": ec_idx, "carry_lost": bool(carry) and closed}
     return ",".join(steps), exp, meta
+
+
+def stall_cases(r, n):
+    """Read time-outs on the accepted socket (set as a connection set-up hook would): the client stalls in the middle of a
+    request body for longer than the time-out.  Whatever the handler does with the failed read, the server no longer knows
+    where the next request starts, so the connection must be closed after (at most) this request's response; the bytes
+    sent afterwards — the rest of the body and a further request — must not be answered.
+    returns [(line, expected transcript, meta)]"""
+    out = []
+    for _ in range(n):
+        kind = r.choice(["swallow", "echo", "noread", "readk0", "hookdrop", "notfound"])
+        body = bytes(r.choice(b"abcdefghij0123456789") for _ in range(r.choice([6, 20, 300])))
+        cut = r.randrange(1, len(body))
+        chunked_ = r.random() < 0.4
+        if chunked_:
+            wire = b"%x\r\n" % len(body) + body + b"\r\n0\r\n\r\n"
+            cutw = len(b"%x\r\n" % len(body)) + cut
+            fr = [(b"Transfer-Encoding", b"chunked")]
+        else:
+            wire, cutw, fr = body, cut, [(b"Content-Length", b"%d" % len(body))]
+        path = {"swallow": b"/swallow", "echo": b"/echo", "noread": b"/noread", "readk0": b"/read/0", "hookdrop": b"/echo", "notfound": b"/nothing"}[kind]
+        hdrs = fr + ([(b"x-hook", b"drop")] if kind == "hookdrop" else [])
+        head = b"POST " + path + b" HTTP/1.1\r\n" + b"".join(k + b": " + v + b"\r\n" for k, v in hdrs) + b"\r\n"
+        first = head + wire[:cutw] if r.random() < 0.5 else None
+        steps = ["s:" + hx(first)] if first else ["s:" + hx(head), "s:" + hx(wire[:cutw])]
+        steps += ["w:700", "s:" + hx(wire[cutw:] + b"GET /p/1/2 HTTP/1.1\r\n\r\n"), "r", "e"]
+        resp = {"swallow": "R200:0:" + hx(b"0"), "echo": None, "noread": "R200:0:" + hx(b"noread"), "readk0": "R200:0:e", "hookdrop": "R405:0:e", "notfound": "R404:0:e"}[kind]
+        exp = ([resp] if resp else []) + ["EOF"] + ([] if resp else ["EOF"])
+        out.append(("CONN max=4096 rto=250 script=" + ",".join(steps), exp, {"kinds": ["stall-" + kind], "early_chunked": False, "ec_idx": None}))
+    return out
